@@ -86,6 +86,13 @@ class Universe:
                  "*." + d, "*." + d, "*" + d, lab[0] + ".*", "*." + ".".join(lab[1:]), "w*." + d, "*.*", "**." + d, "*" + d[1:],
                  d[:2] + "*" + d[-3:], "*.*." + lab[-1], "www." + d, "suffix:www." + d, "*.", d + "..", "*" + lab[0] + "*",
                  "suffix:." + d, "." + d]
+        # several '*' that may all match the empty string (the name is then SHORTER than the pattern)
+        for k in (2, 3, 4):
+            ds = list(d)
+            for _ in range(k):
+                ds.insert(rng.randrange(len(ds) + 1), "*")
+            forms.append("".join(ds))
+        forms.append("*" + lab[0] + "*." + ".".join(lab[1:]) + "*")
         return rng.choice(forms)
 
     def ip_pat(self):
